@@ -160,17 +160,17 @@ def sess_prop(pid, modules, technique, assumptions, nontrivial):
     return run
 
 
-C06 = sess_prop("C06", ["Props.C06", "Props.SessionSkeleton", "Props.SessionOrders", "Props.ConnSkeleton"], "Lean invariant by induction over all event histories (run_preauth / C06_*) + step-by-step correspondence with the real Session + logon oracles",
+C06 = sess_prop("C06", ["Props.C06", "Props.SessionSkeleton", "Props.SessionOrders"], "Lean invariant by induction over all event histories (run_preauth / C06_*) + step-by-step correspondence with the real Session + logon oracles",
                 ["no outgoing handler refuses and the store does not fail (C19's case)"], "distinct (Logon bytes, logged-before, approve) triples")
-C07 = sess_prop("C07", ["Props.C07", "Props.SessionSkeleton", "Props.SessionOrders", "Props.ConnSkeleton"], "Lean theorem C07_preauth over all histories, stores and counters + correspondence + pre-logon output oracle",
+C07 = sess_prop("C07", ["Props.C07", "Props.SessionSkeleton", "Props.SessionOrders"], "Lean theorem C07_preauth over all histories, stores and counters + correspondence + pre-logon output oracle",
                 ["local application sends are the application's own acts"], "distinct inbound messages processed before any successful logon")
-C10 = sess_prop("C10", ["Props.C10", "Props.SessionSkeleton", "Props.SessionOrders", "Props.ConnSkeleton"], "Lean theorems C10_exact/open/never_outside/gap from the store-trace invariant + correspondence + byte-identity oracle on retransmissions",
+C10 = sess_prop("C10", ["Props.C10", "Props.SessionSkeleton", "Props.SessionOrders"], "Lean theorems C10_exact/open/never_outside/gap from the store-trace invariant + correspondence + byte-identity oracle on retransmissions",
                 ["messages are not mutated by the application after sending (store keeps the object)"], "distinct (begin, end, last-sent) triples while logged on, and gap logons")
-C14 = sess_prop("C14", ["Props.C14", "Props.SessionSkeleton", "Props.SessionOrders", "Props.ConnSkeleton"], "Lean theorem C14_echo + correspondence + echo oracle with adversarial TestReqIDs",
+C14 = sess_prop("C14", ["Props.C14", "Props.SessionSkeleton", "Props.SessionOrders"], "Lean theorem C14_echo + correspondence + echo oracle with adversarial TestReqIDs",
                 [], "distinct TestReqID values answered while logged on")
-C15 = sess_prop("C15", ["Props.C15", "Props.SessionSkeleton", "Props.SessionOrders", "Props.ConnSkeleton"], "Lean theorems C15_* (peer logout, own logout, stop/answer, stop/deadline, cancellation permanent) + correspondence + wall-clock oracle for Stop",
+C15 = sess_prop("C15", ["Props.C15", "Props.SessionSkeleton", "Props.SessionOrders"], "Lean theorems C15_* (peer logout, own logout, stop/answer, stop/deadline, cancellation permanent) + correspondence + wall-clock oracle for Stop",
                 ["wall-clock: the close deadline is observed with a tolerance of 1 s"], "peer-logout / own-logout-answer / stop-answer / stop-deadline scenarios")
-C16 = sess_prop("C16", ["Props.C16", "Props.SessionSkeleton", "Props.SessionOrders", "Props.ConnSkeleton"], "Lean theorems C16_reject_* (every admin kind x every damage/state) + correspondence + reject-by-sequence-number oracle",
+C16 = sess_prop("C16", ["Props.C16", "Props.SessionSkeleton", "Props.SessionOrders"], "Lean theorems C16_reject_* (every admin kind x every damage/state) + correspondence + reject-by-sequence-number oracle",
                 [], "distinct (damaged or not-permitted admin message, logged-before) pairs")
 
 def C19(ctx):
@@ -191,7 +191,7 @@ def C19(ctx):
 
 
 def C05(ctx):
-    if common_prelude(ctx, ["Props.C05", "Props.C05Gen", "Props.ConnSkeleton"]):
+    if common_prelude(ctx, ["Props.C05", "Props.C05Gen"]):
         sess_runs(ctx, ["C05"], 60, 600)
         n = sizes(ctx, 12, 150)
         for sd in seeds(ctx):
@@ -236,7 +236,7 @@ JUSTIFIED = {"session.Session.errorHandler", "session.Session.logonRequest", "se
 
 def C20(ctx):
     import re as _re
-    if common_prelude(ctx, ["Props.C20", "Props.ConnSkeleton"]):
+    if common_prelude(ctx, ["Props.C20"]):
         fj = os.path.join(ctx.work, "facts.json")
         facts = json.load(open(fj))
         bad = disciplined_locs(facts)
@@ -338,8 +338,8 @@ def timer_prop(pid, modules, technique, nontrivial):
     return run
 
 
-C08 = timer_prop("C08", ["Props.C08", "Props.C08Gen", "Props.SessionSkeleton", "Props.SessionOrders", "Props.ConnSkeleton"], "Lean theorems C08_upper / C08_lower over all refresh/poll sequences of the timer model + constants and formula text regenerated from source + real-time validation", "distinct refresh schedules / send patterns")
-C09 = timer_prop("C09", ["Props.C09", "Props.C08Gen", "Props.C09Gen", "Props.SessionSkeleton", "Props.SessionOrders", "Props.ConnSkeleton"], "Lean theorems C09_live / silence_bound (timer) and C09_probe / disconnect / cancel (session model) + formula text regenerated from source + real-time probe/disconnect scenarios", "distinct inbound arrival patterns")
+C08 = timer_prop("C08", ["Props.C08", "Props.C08Gen", "Props.SessionSkeleton", "Props.SessionOrders"], "Lean theorems C08_upper / C08_lower over all refresh/poll sequences of the timer model + constants and formula text regenerated from source + real-time validation", "distinct refresh schedules / send patterns")
+C09 = timer_prop("C09", ["Props.C09", "Props.C08Gen", "Props.C09Gen", "Props.SessionSkeleton", "Props.SessionOrders"], "Lean theorems C09_live / silence_bound (timer) and C09_probe / disconnect / cancel (session model) + formula text regenerated from source + real-time probe/disconnect scenarios", "distinct inbound arrival patterns")
 
 def C12(ctx):
     if common_prelude(ctx, ["Props.C12"]):
